@@ -193,6 +193,12 @@ func (c *Ctx) eval(env *Env, e ast.Expr) Val {
 		if v, ok := env.lookup(x.Name); ok {
 			return v
 		}
+		// a package-level constant of the package under verification
+		if c.top != nil && c.top.Package() != nil {
+			if k, ok := c.top.Package().Pkg.Scope().Lookup(x.Name).(*types.Const); ok {
+				return c.constVal(ssa.NewConst(k.Val(), k.Type()))
+			}
+		}
 		panic(vcErr("contract name %q cannot be resolved in %s", x.Name, fnName(env)))
 	case *ast.UnaryExpr:
 		v := c.eval(env, x.X).(T)
